@@ -49,6 +49,10 @@ type Scenario struct {
 	// Sweep expands the scenario into its concrete refinements: "break" = the write direction
 	// breaks at every Stride-th byte offset of what the call writes; "cut" = the server stream is
 	// cut at every Stride-th byte offset.
+	// RowsPer is the number of rows every append adds to the input columns (default 2); large values make the
+	// zero-copy column chunks big enough to be chained by reference
+	RowsPer int `json:"rowsPer,omitempty"`
+
 	Sweep  string `json:"sweep,omitempty"`
 	Stride int    `json:"stride,omitempty"`
 	Phase  int    `json:"phase,omitempty"`
@@ -127,15 +131,16 @@ type runner struct {
 	cl   *ch.Client
 	enc  *serverEnc
 
-	mu      sync.Mutex
-	cond    *sync.Cond
-	park    map[string]*parked
-	exited  map[string]bool
-	gone    map[string]bool // the goroutine function has returned
-	recvErr error
-	gctx    context.Context
-	cbs     []Cb
-	stuck   string
+	mu       sync.Mutex
+	cond     *sync.Cond
+	park     map[string]*parked
+	exited   map[string]bool
+	gone     map[string]bool // the goroutine function has returned
+	stalledW bool
+	recvErr  error
+	gctx     context.Context
+	cbs      []Cb
+	stuck    string
 
 	caller *manualCtx
 
@@ -304,7 +309,11 @@ func (r *runner) appendRows() {
 }
 
 func (r *runner) fillRows() {
-	for i := 0; i < 2; i++ {
+	n := r.sc.RowsPer
+	if n <= 0 {
+		n = 2
+	}
+	for i := 0; i < n; i++ {
 		r.colV.Append(uint64(r.ver*100 + i))
 		r.colS.Append(fmt.Sprintf("v%d-%d", r.ver, i))
 	}
@@ -369,7 +378,7 @@ func (r *runner) onInput(ctx context.Context) error {
 
 func (r *runner) query() ch.Query {
 	cfg := r.sc.Cfg
-	q := ch.Query{Body: "SELECT 1", QueryID: "verif-" + r.sc.ID}
+	q := ch.Query{Body: "SELECT 1", QueryID: "verif-query"} // independent of the scenario id: a re-run must write the same bytes
 	if cfg.Scn != "select" {
 		q.Body = "INSERT INTO t VALUES"
 		if cfg.InitRows > 0 {
@@ -500,6 +509,27 @@ func (r *runner) roleState(role string) (gate string, err error, ok bool) {
 func (r *runner) moveRole(role string) bool {
 	from, _, ok := r.roleState(role)
 	blocked := false
+	if !ok && role == "S" && r.conn.Snap().BlockedWrite {
+		// the sender sits in a write the peer does not take: only a closed connection ends it
+		if !r.conn.Snap().Closed {
+			return false
+		}
+		r.conn.ResumeWrite()
+		ev := Event{"ev": "Move", "role": "S", "from": "wblocked"}
+		if !r.waitFor(func() bool { return r.park["S"] != nil }) {
+			r.stuck = "S did not come back from a blocked write"
+			ev["to"] = "stuck"
+		} else if to, err, ok := r.roleState("S"); ok {
+			ev["to"] = to
+			if to == "ret" {
+				ev["errc"] = classOf(err)
+			}
+		}
+		ev["wire"] = r.newTokens()
+		ev["cbs"] = r.takeCbs()
+		r.emit(ev)
+		return true
+	}
 	if !ok {
 		if role != "R" || !r.conn.Snap().BlockedRead {
 			return false
@@ -572,7 +602,7 @@ func (r *runner) moveRole(role string) bool {
 			if r.park[role] != nil {
 				return true
 			}
-			return role == "R" && r.conn.Snap().BlockedRead
+			return (role == "R" && r.conn.Snap().BlockedRead) || (role == "S" && r.conn.Snap().BlockedWrite)
 		})
 		if !okw {
 			r.stuck = role + " did not reach a gate after " + from
@@ -582,6 +612,8 @@ func (r *runner) moveRole(role string) bool {
 			if to == "ret" {
 				ev["errc"] = classOf(err)
 			}
+		} else if role == "S" {
+			ev["to"] = "wblocked"
 		} else {
 			ev["to"] = "read"
 		}
@@ -704,6 +736,14 @@ func (r *runner) step(m byte) bool {
 		return r.moveCancel(string(m))
 	case 'X':
 		return r.moveClose()
+	case 'Z':
+		if r.stalledW {
+			return false
+		}
+		r.stalledW = true
+		r.emit(Event{"ev": "Env", "a": "Z"})
+		r.conn.StallWrites(true)
+		return true
 	}
 	return false
 }
@@ -826,6 +866,7 @@ func Run(sc Scenario) (events []Event, err error) {
 	ch.VerifHook = nil
 
 	// the next request on the same client
+	r.conn.StallWrites(false)
 	brokeInDo := r.conn.Snap().Broken
 	if !brokeInDo {
 		r.conn.BreakWritesAt(-1)
@@ -856,6 +897,7 @@ func Run(sc Scenario) (events []Event, err error) {
 // abort unblocks everything after a stuck run so that goroutines do not pile up.
 func (r *runner) abort() {
 	r.caller.fire(context.Canceled)
+	r.conn.StallWrites(false)
 	r.conn.SetGated(false, nil)
 	_ = r.conn.Close()
 	r.mu.Lock()
@@ -892,7 +934,7 @@ func (r *runner) finish(wbreak int) []Event {
 		}
 	}
 	begin := Event{"ev": "Begin", "id": r.sc.ID, "cfg": cfg, "chains": chains, "sched": r.sc.Sched, "rev": r.sc.Rev,
-		"compression": r.sc.Compression, "breakAt": r.sc.BreakAt}
+		"compression": r.sc.Compression, "breakAt": r.sc.BreakAt, "rowsPer": r.sc.RowsPer}
 	return append([]Event{begin}, r.events...)
 }
 
